@@ -1,7 +1,125 @@
-//! TrendStrengthIndex — reference model (TODO).
+//! TrendStrengthIndex. Doc: 1 value — `Main value` in [-1, 1]: an oscillator of the strength of the trend,
+//! here the (Pearson) correlation coefficient between the bar number 1..n and the last n source values
+//! (+1: perfectly rising line, -1: perfectly falling line). Undefined (0/0) when all n values are equal.
+//! 2 signals:
+//!   #0 main value crosses the upper `zone` downwards: full negative; crosses the lower `zone` upwards: full positive;
+//!   #1 main value is below the lower `zone` and changes direction upwards: full positive;
+//!      main value is above the upper `zone` and changes direction downwards: full negative.
 use super::*;
+use crate::{win_allow, Ser};
 
-/// returns None until the reference is written
-pub fn make(_cfg: &Cfg, _c0: &RC) -> Option<Box<dyn IndRef>> {
-	None
+#[derive(Clone)]
+pub struct TrendStrengthIndex {
+	src: String,
+	n: usize,
+	zone: f64,
+	offset: usize,
+	input: Ser,
+	/// the values the indicator returned, oldest first (the prehistory has no defined value: NaN)
+	hist: Vec<f64>,
+	x_low: CrossD,
+	x_up: CrossD,
+}
+
+pub fn make(cfg: &Cfg, c0: &RC) -> Option<Box<dyn IndRef>> {
+	let src = cfg.src("source");
+	let s0 = source(c0, &src);
+	let n = cfg.int("period");
+	Some(Box::new(TrendStrengthIndex {
+		n,
+		zone: cfg.float("zone"),
+		offset: cfg.int("reverse_offset"),
+		input: Ser::with_cap(s0, n + 2),
+		hist: Vec::new(),
+		// the main value of the constant prehistory is 0/0: there is no previous difference to cross from
+		x_low: CrossD::new(f64::NAN),
+		x_up: CrossD::new(f64::NAN),
+		src,
+	}))
+}
+
+impl TrendStrengthIndex {
+	/// the value returned `k` bars ago (k = 0: this bar); NaN in the prehistory
+	fn back(&self, k: usize) -> f64 {
+		if k < self.hist.len() {
+			self.hist[self.hist.len() - 1 - k]
+		} else {
+			f64::NAN
+		}
+	}
+}
+
+impl IndRef for TrendStrengthIndex {
+	fn values(&mut self, c: &RC) -> Vec<Q> {
+		let s = source(c, &self.src);
+		self.input.push(s);
+		let n = self.n;
+		let w = self.input.last_n(n);
+		if w.iter().any(|q| !q.is_defined()) {
+			return vec![Q::undefined()];
+		}
+		let rin = w.iter().map(|q| q.r).fold(0.0f64, f64::max);
+		// exact predicate: a window of n equal values has no variance, the correlation is 0/0
+		if w.iter().all(|q| q.v == w[0].v) {
+			return vec![Q::undefined()];
+		}
+		let nf = n as f64;
+		let xbar = (nf + 1.0) * 0.5;
+		let ybar = w.iter().map(|q| q.v).sum::<f64>() / nf;
+		let (mut cov, mut vy, mut vx, mut sadx) = (0.0f64, 0.0f64, 0.0f64, 0.0f64);
+		for (i, q) in w.iter().enumerate() {
+			let dx = (i + 1) as f64 - xbar;
+			let dy = q.v - ybar;
+			cov += dx * dy;
+			vy += dy * dy;
+			vx += dx * dx;
+			sadx += dx.abs();
+		}
+		// the sums over the window are running accumulators in the implementation (sum, sum of squares,
+		// weighted sum): allowance over the whole history, linear resp. quadratic in the magnitude
+		let t = self.input.t();
+		let m = self.input.mag;
+		let sx = nf * (nf + 1.0) * 0.5;
+		let covq = Q::new(cov, win_allow(t, n, 2.0 * sx, m) + sadx * rin);
+		let vyq = Q::new(vy, win_allow(t, n, 2.0 * nf, m * m) + 8.0 * nf * m * rin);
+		// near-singular windows (variance not separated from 0) come out undefined
+		vec![covq / vyq.scale(vx).sqrt()]
+	}
+	fn signals(&mut self, _c: &RC, own: &[f64]) -> Vec<Sig> {
+		let v = own[0];
+		self.hist.push(v);
+		let keep = self.offset.max(3) + 1;
+		if self.hist.len() > 4 * keep {
+			let cut = self.hist.len() - keep;
+			self.hist.drain(..cut);
+		}
+		// #0: crossing the lower zone (-zone) upwards: full positive; crossing the upper zone downwards: full negative
+		let pos = sig_sign(self.x_low.above(v, -self.zone) as i32);
+		let neg = sig_sign(self.x_up.under(v, self.zone) as i32);
+		let s0 = sig_sub(pos, neg);
+
+		// #1: † follows the implementation: "changes direction" = a pivot with 1 bar to the left and 2 bars to
+		// the right (known 2 bars later); the value tested against the zone is the one `reverse_offset` bars ago;
+		// the zone borders belong to the zones
+		let (x3, x2, x1, x0) = (self.back(3), self.back(2), self.back(1), v);
+		let s1 = if !(x3.is_finite() && x2.is_finite() && x1.is_finite() && x0.is_finite()) {
+			// the main value is not defined on some of these bars: no direction to speak of
+			Sig::Any
+		} else {
+			let upper = x2 > x1 && x2 > x0 && x2 >= x3;
+			let lower = x2 < x1 && x2 < x0 && x2 <= x3;
+			let z = self.back(self.offset);
+			if (upper || lower) && !z.is_finite() {
+				Sig::Any
+			} else if upper && z >= self.zone {
+				Sig::S(-255)
+			} else if lower && z <= -self.zone {
+				Sig::S(255)
+			} else {
+				Sig::None
+			}
+		};
+		vec![s0, s1]
+	}
+	indref!(TrendStrengthIndex);
 }
